@@ -33,6 +33,9 @@ package curve25519
 //@ class SUB1  = [1<<53, 1<<53, 1<<53, 1<<53, 1<<53]
 //@ class U1    = [1<<53, 1<<53, 1<<53, 1<<53, 1<<53]
 //@ class CANON = [1<<51 - 1, 1<<51 - 1, 1<<51 - 1, 1<<51 - 1, 1<<51 - 1]
+//@ class AB    = [1<<54, 1<<54, 1<<54, 1<<54, 1<<54]
+//@ spec mulok(x) = mag(x, MULIN)
+//@ spec isone(x) = x[0] == 1 && x[1] == 0 && x[2] == 0 && x[3] == 0 && x[4] == 0
 
 //@ func (*Bignum25519).Reset(out)
 //@   modifies *out
@@ -158,6 +161,9 @@ package curve25519
 //@ class TWOP  = [0x07ffffda, 0x03fffffe, 0x07fffffe, 0x03fffffe, 0x07fffffe, 0x03fffffe, 0x07fffffe, 0x03fffffe, 0x07fffffe, 0x03fffffe]
 //@ class FOURP = [0x0fffffb4, 0x07fffffc, 0x0ffffffc, 0x07fffffc, 0x0ffffffc, 0x07fffffc, 0x0ffffffc, 0x07fffffc, 0x0ffffffc, 0x07fffffc]
 //@ class HALF  = [1<<30, 1<<30, 1<<30, 1<<30, 1<<30, 1<<30, 1<<30, 1<<30, 1<<30, 1<<30]
+//@ class AB    = [1<<26 + 1<<13, 1<<25 + 1<<13, 1<<26 + 1<<13, 1<<25 + 1<<13, 1<<26 + 1<<13, 1<<25 + 1<<13, 1<<26 + 1<<13, 1<<25 + 1<<13, 1<<26 + 1<<13, 1<<25 + 1<<13]
+//@ spec mulok(x) = mag(x, ADD1) || mag(x, SUB1)
+//@ spec isone(x) = x[0] == 1 && forall(i, 1, 10, x[i] == 0)
 //@ class B2    = [1<<27 + 1<<14, 1<<26 + 1<<14, 1<<27 + 1<<14, 1<<26 + 1<<14, 3<<26 + 1<<14, 3<<25 + 1<<14, 3<<26 + 1<<14, 3<<25 + 1<<14, 3<<26 + 1<<14, 3<<25 + 1<<14]
 
 //@ func (*Bignum25519).Reset(out)
